@@ -388,12 +388,17 @@ impl FeoxStore {
             sector += sectors_needed as u64;
         }
 
+        // Expired winners are retired in a pass of their own, after every stale duplicate:
+        // retirement is journaled in chunks, and an expired winner marked in an earlier chunk
+        // than its older generation would let that generation win if recovery were interrupted.
+        let mut expired_extents = Vec::new();
         if let Some(now) = recovery_time {
-            self.remove_expired_recovery_winners(now, format, &mut retired_extents)?;
+            self.remove_expired_recovery_winners(now, format, &mut expired_extents)?;
         }
 
         if !self.read_only {
             disk.retire_extents(&retired_extents)?;
+            disk.retire_extents(&expired_extents)?;
         }
 
         if last_end < total_sectors {
